@@ -25,6 +25,7 @@ EXPLANATION = (
     "reply with the same id, missing ids rejected, no loop-carried state. The wire leg is C01's "
     "layout of the three items involved. Not decided: concrete UID string encoding."
     " Second session: the acceptor's reply used for a context is looked up for that context in the same loop iteration on every path (typestate fresh / stale / foreign; try-except, .get and if-else spellings accepted); AE.associate() numbers every proposed context unconditionally with an odd ID affine and injective in its position (unique-ids)."
+    " Fourth session: (private-contexts) borrowed from C10's config-copy; the requestor-side partition is evaluated like the acceptor's."
 )
 
 B3 = (True, False, None)
